@@ -351,7 +351,7 @@ func Solve(file string, tsec int, thorough bool) SolverResult {
 	pending := len(specs)
 	var wave2At <-chan time.Time
 	if tsec > 6 {
-		wave2At = time.After(4 * time.Second)
+		wave2At = time.After(3 * time.Second)
 	}
 	var unsatR, satR *r
 loop:
@@ -360,7 +360,7 @@ loop:
 		case <-wave2At:
 			wave2At = nil
 			for _, sp := range wave2 {
-				launch(sp, tsec-4)
+				launch(sp, tsec-3)
 			}
 			pending += len(wave2)
 		case x := <-ch:
